@@ -52,7 +52,7 @@ func verifRunConc(c verifC01Case) (out verifC01Out) {
 	gb.proba = mathx.NewProbaWithSource(src)
 	cancelled, cancel := context.WithCancel(context.Background())
 	cancel()
-	acceptable := func(err error) bool { return err == nil || err == verifErrA }
+	acceptable := verifAcceptable
 
 	ths := make([]*verifThread, len(c.Calls))
 	for i := range ths {
@@ -84,15 +84,7 @@ func verifRunConc(c verifC01Case) (out verifC01Out) {
 			t.req++
 			t.parked <- struct{}{}
 			<-t.release
-			switch outc {
-			case 1:
-				return verifErrU
-			case 2:
-				return verifErrA
-			case 3:
-				panic(pv)
-			}
-			return nil
+			return verifOutcome(outc, pv)
 		}
 		fb := func(err error) error {
 			t.fb++
@@ -105,11 +97,7 @@ func verifRunConc(c verifC01Case) (out verifC01Out) {
 			defer close(t.done)
 			defer func() {
 				if r := recover(); r != nil {
-					if r == any(pv) {
-						t.res = resPanic
-					} else {
-						t.res = resOther
-					}
+					t.res = verifPanicClass(r, any(pv))
 				}
 			}()
 			t.res = verifClass(verifInvoke(brk, entry, ctxm, ctx, req, fb, acceptable))
